@@ -1,20 +1,7 @@
 //! vcheck: runs the check of one property (default revm feature set).
-mod common;
-mod dbcheck;
-mod eofcheck;
-mod evmrun;
-mod histcheck;
-mod journalcheck;
-mod monchecks;
-mod monitors;
-mod ops;
-mod precomp;
-mod pure;
-mod statecheck;
-mod structs;
-mod txcheck;
 
 use vcore::Ctx;
+use vmain::*;
 
 fn main() {
     let args: Vec<String> = std::env::args().skip(1).collect();
